@@ -186,7 +186,9 @@ func main() {
 	}
 
 	// ---- part 2: confinement for arbitrary archives
-	names := []string{"a", "d/a", "../a", "../../a", "d/../../a", "/abs", "..", "./a", "d/", "d", "a/b", `..\a`, "d/../e/../../x"}
+	names := []string{"a", "d/a", "../a", "../../a", "d/../../a", "/abs", "..", "./a", "d/", "d", "a/b", `..\a`, "d/../e/../../x",
+		// siblings whose names start with the destination's own name ("dest"): a string-prefix test is not a path-prefix test
+		"../dest2/a", "../dest-backup/a", "../destx", "d/../../dest.old/a"}
 	maxEntries := 2
 	if run.Thorough() {
 		maxEntries = 3
@@ -282,6 +284,6 @@ func main() {
 	run.Assume = []string{"runs on a real scratch directory created with mktemp and removed afterwards; symlinks inside archives are not generated (archive/zip entries are written as regular files)"}
 	run.Finish(ev.Coverage{
 		"evaluations": evals, "distinct_nontrivial": nontriv, "samples": samples.List, "exhaustive": true, "archives": archNo, "roundtrip_cases": caseNo,
-		"rule": "round trip: subsets of a 10-path universe (root file, empty file, binary content, d/f, d/e/f, names with space/dots/unicode/leading dot, a *.skip file; plus an empty directory) x 5 filters x recursive flag, ZipFolder -> UnzipToFolder -> extracted tree must equal exactly the selected files byte for byte (thorough: all 1024 subsets); confinement: every archive of <= 2 (thorough 3) distinct entries from 13 adversarial names ('..' segments, absolute path, '..', './a', directory entry, file/dir clashes, backslash), snapshot (path, hash) of the scratch tree three levels above the destination before/after: only paths under the destination may differ whatever UnzipToFolder returns. non-trivial = round trips selecting >= 1 file, archives with a '..' entry",
+		"rule": "round trip: subsets of a 10-path universe (root file, empty file, binary content, d/f, d/e/f, names with space/dots/unicode/leading dot, a *.skip file; plus an empty directory) x 5 filters x recursive flag, ZipFolder -> UnzipToFolder -> extracted tree must equal exactly the selected files byte for byte (thorough: all 1024 subsets); confinement: every archive of <= 2 (thorough 3) distinct entries from 17 adversarial names ('..' segments, absolute path, '..', './a', directory entry, file/dir clashes, backslash), snapshot (path, hash) of the scratch tree three levels above the destination before/after: only paths under the destination may differ whatever UnzipToFolder returns. non-trivial = round trips selecting >= 1 file, archives with a '..' entry",
 	})
 }
